@@ -1,6 +1,7 @@
 (* C10 — thread-safe variants serialise delivery and cannot deadlock. *)
-From RxModel Require Import Conc.
-From RxProofs Require ConcLaws.
+From RxModel Require Import Conc Ileave.
+From RxSpec Require Import IleaveSpec.
+From RxProofs Require ConcLaws IleaveBase IleaveInv IleaveOrder IleaveLaws.
 Local Open Scope nat_scope.
 
 (* Threads whose work follows the crate's locking discipline — a mutex is locked only if it ranks
@@ -47,6 +48,43 @@ Theorem C10_cancel_without_the_lock_refuted :
   existsb (fun xs => k_bad (krun xs)) (ConcLaws.executions false) = true.
 Proof. exact ConcLaws.cancel_without_the_lock_refuted. Qed.
 
+(* ---- SubjectThreads / BehaviorSubject over it, with the state the mutexes protect (Ileave.v) ----
+   Any number of threads, each running any script of next / complete / error / subscribe /
+   unsubscribe / unsubscribe-the-subject / BehaviorSubject next, subscribe, peek, after any
+   sequential setup, under ANY schedule at the granularity of mutex acquisitions: *)
+
+(* whenever some thread's script is not over, some thread can move: no deadlock, in any
+   configuration *)
+Theorem C10_subject_never_stuck :
+  forall s ths, istuck s ths = false.
+Proof. exact IleaveBase.no_stuck. Qed.
+
+Theorem C10_subject_no_deadlock :
+  forall v0 setup scripts sched,
+    let '(tr, e, fin) := run_case v0 setup scripts sched in e <> EDeadlock.
+Proof. exact IleaveBase.il_no_deadlock. Qed.
+
+(* no call panics (load() never finds the observer list without the chamber) *)
+Theorem C10_subject_no_panic :
+  forall v0 setup scripts sched,
+    let '(tr, e, fin) := run_case v0 setup scripts sched in no_panic tr = true.
+Proof. exact IleaveBase.il_no_panic. Qed.
+
+(* no subscriber callback ever runs on two threads at once *)
+Theorem C10_subject_callbacks_exclusive :
+  forall v0 setup scripts sched,
+    IleaveInv.names_ok setup scripts = true -> IleaveInv.setup_completes v0 setup = true ->
+    let '(tr, e, fin) := run_case v0 setup scripts sched in no_overlap tr = true.
+Proof. exact IleaveInv.il_no_overlap. Qed.
+
+(* all subscribers observe concurrent emissions in one common order, each at most once: what a
+   subscriber sees is a sub-sequence of one duplicate-free global order of the broadcasts *)
+Theorem C10_subject_common_order :
+  forall v0 setup scripts sched,
+    IleaveInv.names_ok setup scripts = true ->
+    let '(tr, e, fin) := run_case v0 setup scripts sched in common_order_ok scripts tr = true.
+Proof. exact IleaveOrder.il_common_order. Qed.
+
 Check C10_no_deadlock : forall lock_of ps sched, disciplined lock_of ps = true -> stuck (fst (exec (start ps) sched)) = false.
 Check C10_callbacks_are_exclusive : forall lock_of ps sched t1 t2 p1 st1 p2 st2 o,
     disciplined lock_of ps = true ->
@@ -61,6 +99,23 @@ Check C10_cancel_waits_for_running_poll :
   forallb (fun xs => negb (k_bad (krun xs)) && Nat.leb (k_body_runs (krun xs)) 1) (ConcLaws.executions true) = true.
 Check C10_cancel_without_the_lock_refuted : existsb (fun xs => k_bad (krun xs)) (ConcLaws.executions false) = true.
 
+Check C10_subject_never_stuck : forall s ths, istuck s ths = false.
+Check C10_subject_no_deadlock : forall v0 setup scripts sched,
+    let '(tr, e, fin) := run_case v0 setup scripts sched in e <> EDeadlock.
+Check C10_subject_no_panic : forall v0 setup scripts sched,
+    let '(tr, e, fin) := run_case v0 setup scripts sched in no_panic tr = true.
+Check C10_subject_callbacks_exclusive : forall v0 setup scripts sched,
+    IleaveInv.names_ok setup scripts = true -> IleaveInv.setup_completes v0 setup = true ->
+    let '(tr, e, fin) := run_case v0 setup scripts sched in no_overlap tr = true.
+Check C10_subject_common_order : forall v0 setup scripts sched,
+    IleaveInv.names_ok setup scripts = true ->
+    let '(tr, e, fin) := run_case v0 setup scripts sched in common_order_ok scripts tr = true.
+
+Print Assumptions C10_subject_never_stuck.
+Print Assumptions C10_subject_no_deadlock.
+Print Assumptions C10_subject_no_panic.
+Print Assumptions C10_subject_callbacks_exclusive.
+Print Assumptions C10_subject_common_order.
 Print Assumptions C10_no_deadlock.
 Print Assumptions C10_callbacks_are_exclusive.
 Print Assumptions C10_subject_next_disciplined.
@@ -82,3 +137,17 @@ Example C10_opposite_orders_deadlock :
   disciplined ConcLaws.idl ps = false /\ stuck (fst (exec (start ps) [0; 1; 0; 1])) = true.
 Proof. vm_compute. split; reflexivity. Qed.
 
+
+(* non-vacuity of the hypotheses: three threads mixing subject and behavior operations, late
+   subscriptions, unsubscriptions and a terminal *)
+Example C10_subject_hypotheses_satisfiable :
+  (IleaveInv.names_ok IleaveLaws.ex_setup IleaveLaws.ex_scripts,
+   IleaveInv.setup_completes 0%Z IleaveLaws.ex_setup,
+   IleaveLaws.unsubs_ok IleaveLaws.ex_setup IleaveLaws.ex_scripts) = (true, true, true).
+Proof. exact IleaveLaws.hyps_satisfiable. Qed.
+
+(* the names hypothesis is needed: a probe subscribed twice is entered twice *)
+Example C10_subject_names_needed :
+  (IleaveInv.names_ok [ISub 0] [[INext 1%Z]; [IBSub 0]], IleaveInv.setup_completes 0%Z [ISub 0],
+   no_overlap (IleaveLaws.tr_of (run_case 0%Z [ISub 0] [[INext 1%Z]; [IBSub 0]] [0;0;0;0;1]))) = (false, true, false).
+Proof. exact IleaveLaws.no_overlap_needs_names. Qed.
